@@ -1,7 +1,10 @@
 """C17 — unsupported dtype combinations fail loudly (TypeError family) instead of being coerced."""
 from __future__ import annotations
 
-from vlib import core, elem
+import inspect
+import itertools
+
+from vlib import core, coqcorr, elem
 
 LEVEL = "proof"
 
@@ -22,12 +25,96 @@ def run(ctx):
     # eager pass (thorough): same outcome class on data-holding arrays
     if ctx.tier == "thorough":
         eager_pass(ctx, specs, out)
+    nonelementwise(ctx)
     f = ctx.work / "C17_static.v"
     f.write_text((core.COQ / "Props" / "C17.v").read_text())
     ctx.compile("Props/C17.v: meaning of the domain predicate + the law on the committed model table", f, kind="theorem")
     ctx.coverage.update({
         "rule": "exhaustive over the finite table: every element-wise function and operator x every operand tuple (24x24 dtype pairs, Python scalars both orders, reflected operators) traced on placeholders; thorough adds data-holding arrays. Distinct by (function, operand tuple, how).",
         "exhaustive": True, "traces_validated_against_impl": len(specs)})
+
+
+ARR = ["AUtf8", "ANUtf8", "ABool", "ANBool", "AInt", "AFloat", "ANInt", "AStruct"]
+PYS = ["PInt", "PFloat", "PBool", "PStr"]
+NUMERIC1 = ["sum", "prod", "mean", "var", "std", "cumulative_sum", "min", "max", "sort", "argsort", "argmax", "argmin"]
+TAKES_DTYPE = ["sum", "prod", "cumulative_sum", "var", "std", "mean"]     # filtered against the real signatures at run time
+
+
+def func_calls():
+    calls = []
+    for f in NUMERIC1:
+        for a in ARR:
+            for kw in [None, "AFloat", "AInt", "AUtf8"]:
+                if kw is not None and f not in TAKES_DTYPE:
+                    continue
+                calls.append({"f": f, "args": [a], "kw": kw})
+    for f in ("searchsorted", "matmul"):
+        for a, b in itertools.product(ARR, ARR):
+            calls.append({"f": f, "args": [a, b], "kw": None})
+    for x in ARR:
+        for b in ARR + PYS:
+            calls.append({"f": "clip", "args": [x, b], "kw": None})
+        calls.append({"f": "clip", "args": [x, "PInt", "PInt"], "kw": None})
+    for c in ["ABool", "ANBool", "AInt", "AFloat", "AUtf8", "ANInt"]:
+        for x, y in itertools.product(["AUtf8", "ANUtf8", "ABool", "AInt", "AFloat", "ANInt", "PInt", "PStr", "PFloat"], repeat=2):
+            if x.startswith("P") and y.startswith("P") and c in ("ABool",):
+                continue
+            calls.append({"f": "where", "args": [c, x, y], "kw": None})
+    for f in ("concat", "stack"):
+        for a, b in itertools.product(["AUtf8", "ANUtf8", "ABool", "AInt", "AFloat", "ANInt"], repeat=2):
+            calls.append({"f": f, "args": [a, b], "kw": None})
+    for a in ["ANUtf8", "ANInt", "ANBool"]:
+        for v in PYS + ["AInt", "AUtf8"]:
+            calls.append({"f": "fill_null", "args": [a, v], "kw": None})
+    out = []
+    for c in calls:
+        for lazy in (True, False):
+            if not lazy and "AStruct" in c["args"]:
+                continue          # the user struct dtype of the harness has no NumPy constructor
+            out.append(dict(c, lazy=lazy))
+    return out
+
+
+def nonelementwise(ctx):
+    """Every non-element-wise public function with a restricted domain x operand kinds (strings, booleans, numbers,
+    nullable, user struct, Python scalars) x dtype= x lazy/eager: rows regenerated from the implementation, the domain
+    law (Ndx/FuncDomain.v) proved on them inside Coq."""
+    calls = func_calls()
+    by = {}
+    for c in calls:
+        by.setdefault(c["f"], []).append(c)
+    cases = [{"id": f"fd-{f}", "calls": cs} for f, cs in by.items()]
+    res = core.run_cases("harness.h_funcs17", cases, workers=14, per_case_timeout=600)
+    rows, lines = [], []
+    for cs in cases:
+        r = res.get(cs["id"]) or {}
+        if "outs" not in r:
+            ctx.finding({"func": cs["id"][3:], "kind": "crash", "mode": "any"}, f"{cs['id']}: worker outcome {str(r)[:200]}", {"case": cs, "outcome": r})
+            continue
+        for c, o in zip(cs["calls"], r["outs"]):
+            if c.get("kw") is not None and o.startswith("T:TypeError") and "unexpected keyword" in o:
+                continue          # the function has no dtype= parameter: not a call of the public API
+            oc = "OOk" if o.startswith("ok:") else "OTypeError" if o.startswith("T:") else "OOther"
+            kw = "None" if c.get("kw") is None else f"(Some {c['kw']})"
+            lines.append(f'  {{| fname := "{c["f"]}"; fargs := [{"; ".join(c["args"])}]; fkw := {kw}; flazy := {"true" if c["lazy"] else "false"}; fout := {oc} |}}')
+            rows.append((c, o))
+            ctx.count(("frow", c["f"], tuple(c["args"]), c.get("kw"), c["lazy"]), nontrivial=True)
+            ctx.evaluations += 1
+    header = ("From Coq Require Import List Bool String.\nFrom ND Require Import Ndx.FuncDomain.\nImport ListNotations.\nOpen Scope string_scope.\n"
+              "Definition bad_idx (ok : frow -> bool) (l : list frow) (i : nat) := bad_rows l i.\n")
+
+    def on_bad(i):
+        c, o = rows[i]
+        attrs = {"func": c["f"], "args": "/".join(c["args"]), "dtype_kw": c.get("kw") or "none", "mode": "lazy" if c["lazy"] else "eager",
+                 "kind": "returns" if o.startswith("ok:") else "wrong-exception", "law": "function-domain"}
+        call_s = f"ndonnx.{c['f']}({', '.join(c['args'])}{', dtype=' + c['kw'] if c.get('kw') else ''}) [{'placeholder' if c['lazy'] else 'data-holding'} operands]"
+        return ctx.finding(attrs, f"{call_s}: outside the function's domain but {'returns ' + o[3:] if o.startswith('ok:') else 'raises ' + o[2:]} instead of a TypeError",
+                           {"call": c, "observed": o, "how_to_replay": "tools/harness/h_funcs17.py handle({'calls': [call]})"})
+    coqcorr.run(ctx, "FuncRows.v", f"T-exh + law (in Coq): every non-element-wise function row regenerated from /repo ({len(lines)} calls) satisfies the domain law `outside -> TypeError` (Ndx/FuncDomain.v)",
+                header, "frow", lines, "row_ok", on_bad)
+    ctx.coverage["function_rows"] = len(lines)
+    if rows:
+        ctx.sample({"function_row": rows[0][0], "observed": rows[0][1]})
 
 
 def eager_pass(ctx, specs, out):
